@@ -343,7 +343,8 @@ def item_lines(ctx, n, env_prob=0.0):
 def check_C10(ctx):
     rng = ctx.rng
     cases, groups = [], []
-    for decls, text, items in item_lines(ctx, ctx.scale(1200, 12000)):
+    for decls, text, items in item_lines(ctx, ctx.scale(1200, 12000), env_prob=0.3):
+        env = {d["env"]: "ev" for d in decls if d.get("env") and rng.random() < 0.7}
         base_choice = {i: rng.choice(forms(it[1])) for i, it in enumerate(items) if it[0] == "occ"}
         variants = [(dict(base_choice), set())]
         # every single respelling
@@ -377,7 +378,7 @@ def check_C10(ctx):
                 continue
             seen.add(tuple(argv))
             root = gen.mkcmd("app", decls=copy.deepcopy(decls), spec=text, policy=0)
-            cases.append({"op": "run", "env": {}, "version": None, "root": root, "argv": argv})
+            cases.append({"op": "run", "env": env, "version": None, "root": root, "argv": argv})
         groups.append((start, len(cases)))
     res = correspond(ctx, cases, ["outcome", "trace", "values"], "respellings")
     pairs = 0
@@ -402,7 +403,8 @@ def check_C10(ctx):
 def check_C11(ctx):
     rng = ctx.rng
     cases, groups = [], []
-    for decls, text, items in item_lines(ctx, ctx.scale(2500, 25000)):
+    for decls, text, items in item_lines(ctx, ctx.scale(2500, 25000), env_prob=0.3):
+        env = {d["env"]: "ev" for d in decls if d.get("env") and rng.random() < 0.7}
         choice = {i: rng.choice(forms(it[1])) for i, it in enumerate(items) if it[0] == "occ"}
         variants = [items]
         for i in range(len(items) - 1):
@@ -432,7 +434,7 @@ def check_C11(ctx):
                 ch = short
                 folds = {k2 for k2 in range(len(its)) if foldable(its, ch, k2)}
             root = gen.mkcmd("app", decls=copy.deepcopy(decls), spec=text, policy=0)
-            cases.append({"op": "run", "env": {}, "version": None, "root": root, "argv": render_line(its, ch, folds)})
+            cases.append({"op": "run", "env": env, "version": None, "root": root, "argv": render_line(its, ch, folds)})
         groups.append((start, len(cases)))
     res = correspond(ctx, cases, ["outcome", "trace", "values"], "adjacent swaps")
     pairs = 0
